@@ -281,6 +281,50 @@ func mapKeys(m map[string]reflect.Type) []string {
 
 func TestC16(t *testing.T) {
 	r := rec.For("C16")
+	// witness of a repaired defect: a type whose HessianCodecName returns "" (extraction panicked: index out of
+	// range). The extraction returns, by value and by pointer, from a zero and a populated witness, and a
+	// populated value round-trips with the maps
+	for i, w := range []interface{}{zoo.EmptyNamed{}, &zoo.EmptyNamed{A: 1, L: []int32{2}}, &zoo.EmptyNamedHolder{}, &zoo.EmptyNamedHolder{X: &zoo.EmptyNamed{A: 3, L: []int32{1}}, M: map[string]int32{"k": 1}}} {
+		var tm map[string]reflect.Type
+		var nm map[string]string
+		var tmo map[string]reflect.Type
+		pv, st := guard(func() {
+			tm, nm = hessian.ExtractTypeNameMap(w)
+			tmo = hessian.TypeMapOf(reflect.TypeOf(w))
+		})
+		msg := ""
+		if pv != nil {
+			msg = fmt.Sprintf("panic: %v [%s]", pv, st)
+		} else {
+			for k, v := range nm {
+				if k == "" || v == "" {
+					msg = fmt.Sprintf("the name map holds an empty name: %q -> %q", k, v)
+				}
+			}
+			if _, ok := tmo[""]; ok {
+				msg = "TypeMapOf holds an entry for the empty name"
+			}
+			v := &zoo.EmptyNamedHolder{X: &zoo.EmptyNamed{A: 7, L: []int32{1, 2}}, M: map[string]int32{"a": 1}}
+			if i >= 2 && msg == "" {
+				b, err := hessian.ToBytes(v, copyNames(nm))
+				var out interface{}
+				if err == nil {
+					out, err = hessian.ToObject(b, tm)
+				}
+				if err != nil {
+					msg = fmt.Sprintf("a value does not round-trip with the extracted maps: %v", err)
+				} else if cerr := vcmp.Equal(v, out, nm); cerr != nil {
+					msg = "a value round-trips to something else: " + cerr.Error()
+				}
+			}
+		}
+		if msg != "" {
+			directFail(t, "C16", map[string]interface{}{"witness": fmt.Sprintf("%T #%d", w, i)}, "C16 a type whose HessianCodecName returns the empty string (%T): %s", w, msg)
+		}
+		r.Eval()
+		r.NonTrivial(av.Hash(fmt.Sprintf("empty-name/%d", i)))
+		r.Label("type declaring the empty string as its wire name")
+	}
 	// ---- TypeMapOf on every type: terminates (process death is caught by the
 	// driver through the recorder), and holds every reachable struct type
 	for _, typ := range append(append([]reflect.Type{}, c16Types...), zoo.T(c16InPlace{})) {
